@@ -151,7 +151,8 @@ class PEval:
         a, b = self.ev(n.left), self.ev(n.right)
         if isinstance(a, Lit) and isinstance(b, Lit):
             import operator
-            f = {ast.Add: operator.add, ast.Sub: operator.sub, ast.Mult: operator.mul}.get(type(n.op))
+            f = {ast.Add: operator.add, ast.Sub: operator.sub, ast.Mult: operator.mul, ast.RShift: operator.rshift, ast.LShift: operator.lshift, ast.BitAnd: operator.and_, ast.BitOr: operator.or_,
+                 ast.FloorDiv: operator.floordiv, ast.Mod: operator.mod}.get(type(n.op))
             if f is not None:
                 try:
                     return Lit(f(a.v, b.v))
@@ -159,6 +160,8 @@ class PEval:
                     pass
         if isinstance(n.op, ast.Add) and isinstance(a, Lst) and isinstance(b, Lst):
             return Lst(a.items + b.items, a.tup)
+        if isinstance(n.op, ast.Mult) and isinstance(a, Lst) and isinstance(b, Lit) and isinstance(b.v, int) and not isinstance(b.v, bool):
+            return Lst(a.items * b.v, a.tup)
         op = {ast.Add: '+', ast.Sub: '-', ast.Mult: '*', ast.Div: '/'}.get(type(n.op), '?')
         return Sym(f'{a!r} {op} {b!r}')
 
@@ -194,8 +197,14 @@ class PEval:
             hi = self.ev(n.slice.upper) if n.slice.upper is not None else Lit(None)
             if isinstance(v, Lst) and isinstance(lo, Lit) and isinstance(hi, Lit) and n.slice.step is None:
                 return Lst(v.items[lo.v:hi.v], v.tup)
+            if isinstance(v, Lit) and isinstance(v.v, (str, bytes)) and isinstance(lo, Lit) and isinstance(hi, Lit) and n.slice.step is None:
+                return Lit(v.v[lo.v:hi.v])
             return Sym(f'{v!r}[{"" if lo.v is None else lo!r}:{"" if hi.v is None else hi!r}]' if isinstance(lo, Lit) and isinstance(hi, Lit) else f'{v!r}[...]')
         k = self.ev(n.slice)
+        if isinstance(v, Lit) and isinstance(v.v, (str, bytes)) and isinstance(k, Lit) and isinstance(k.v, int):
+            if not -len(v.v) <= k.v < len(v.v):
+                raise Raised(n)
+            return Lit(v.v[k.v])
         if isinstance(v, Lst) and isinstance(k, Lit) and isinstance(k.v, int):
             if not -len(v.items) <= k.v < len(v.items):
                 raise Raised(n)
@@ -247,14 +256,35 @@ class PEval:
             a = [self.ev(x) for x in n.args]
             if isinstance(v, Lit) and isinstance(v.v, str) and all(isinstance(x, Lit) and isinstance(x.v, str) for x in a):
                 return Lit(getattr(v.v, n.func.attr)(*[x.v for x in a]))
+        if isinstance(n.func, ast.Attribute) and n.func.attr in ('split', 'rsplit') and 1 <= len(n.args) <= 2 and not n.keywords:
+            v = self.ev(n.func.value)
+            a = [self.ev(x) for x in n.args]
+            if isinstance(v, Lit) and isinstance(v.v, str) and all(isinstance(x, Lit) for x in a):
+                return Lst([Lit(x) for x in getattr(v.v, n.func.attr)(*[x.v for x in a])])
+        if isinstance(n.func, ast.Attribute) and n.func.attr == 'append' and len(n.args) == 1 and isinstance(n.func.value, ast.Name) and isinstance(self.env.get(n.func.value.id), Lst):
+            self.env[n.func.value.id].items.append(self.ev(n.args[0]))
+            return Lit(None)
+        if isinstance(n.func, ast.Name) and n.func.id in ('tuple', 'list') and len(n.args) == 1 and not n.keywords:
+            v = self.ev(n.args[0])
+            if isinstance(v, Lst):
+                return Lst(v.items, tup=n.func.id == 'tuple')
         if isinstance(n.func, ast.Name) and n.func.id in ('sum', 'any', 'all') and len(n.args) == 1:
             v = self.ev(n.args[0])
             if isinstance(v, Lst) and all(isinstance(x, Lit) for x in v.items):
                 vals = [x.v for x in v.items]
                 return Lit(sum(vals) if n.func.id == 'sum' else any(vals) if n.func.id == 'any' else all(vals))
             raise Undecided(f'{n.func.id} of {v!r}')
+        if isinstance(n.func, ast.Name) and n.func.id == 'int' and 1 <= len(n.args) <= 2 and not n.keywords:
+            a = [self.ev(x) for x in n.args]
+            if all(isinstance(x, Lit) for x in a) and isinstance(a[0].v, (str, int)) and not isinstance(a[0].v, bool):
+                try:
+                    return Lit(int(*[x.v for x in a]))
+                except (ValueError, TypeError):
+                    raise Raised(n)
         if isinstance(n.func, ast.Name) and n.func.id == 'len' and len(n.args) == 1:
             v = self.ev(n.args[0])
+            if isinstance(v, Lit) and isinstance(v.v, (str, bytes)):
+                return Lit(len(v.v))
             if isinstance(v, Lst):
                 return Lit(len(v.items))
             if isinstance(v, Dct):
@@ -286,6 +316,13 @@ class PEval:
             self.run(s.body if truth(self.ev(s.test)) else s.orelse)
         elif isinstance(s, ast.Raise):
             raise Raised(s)
+        elif isinstance(s, ast.For) and not s.orelse and not any(isinstance(x, (ast.Break, ast.Continue, ast.Return)) for b in s.body for x in ast.walk(b)):
+            it = self.ev(s.iter)
+            if not isinstance(it, Lst):
+                raise Undecided(f'loop over {it!r}')
+            for item in list(it.items):
+                self.assign(s.target, item)
+                self.run(s.body)
         elif isinstance(s, ast.Pass):
             pass
         else:
@@ -301,6 +338,14 @@ class PEval:
                 base.d[k.v if isinstance(k, Lit) else repr(k)] = v
             else:
                 raise Undecided('store into a non-display')
+        elif isinstance(t, (ast.Tuple, ast.List)) and isinstance(v, Lst) and sum(isinstance(e, ast.Starred) for e in t.elts) == 1 and len(v.items) >= len(t.elts) - 1:
+            i = [isinstance(e, ast.Starred) for e in t.elts].index(True)
+            after = len(t.elts) - i - 1
+            for tt, vv in zip(t.elts[:i], v.items[:i]):
+                self.assign(tt, vv)
+            self.assign(t.elts[i].value, Lst(v.items[i:len(v.items) - after]))
+            for tt, vv in zip(t.elts[i + 1:], v.items[len(v.items) - after:]):
+                self.assign(tt, vv)
         elif isinstance(t, (ast.Tuple, ast.List)) and isinstance(v, Lst) and len(v.items) == len(t.elts):
             for tt, vv in zip(t.elts, v.items):
                 self.assign(tt, vv)
